@@ -26,6 +26,8 @@ def to_smt2(assumptions: list[z3.BoolRef], goal: z3.BoolRef | None) -> str:
 	if goal is not None:
 		s.add(z3.Not(goal))
 	txt = s.to_smt2()
+	# z3 prints empty conjunctions / disjunctions that other solvers reject
+	txt = txt.replace('(and )', 'true').replace('(or )', 'false')
 	return _REC_FIX.sub(r'\1', txt)
 
 
@@ -145,6 +147,9 @@ def _cvc5_cli_run(text: str, timeout_ms: int) -> tuple[str, float, str]:
 		r = subprocess.run([CVC5_CLI, '--strings-exp', f'--tlimit={timeout_ms}', path], capture_output=True, text=True, timeout=timeout_ms / 1000 + 10)
 		out = r.stdout.strip().splitlines()
 		v = out[0] if out else 'error'
+		if 'Parse Error' in (r.stdout + r.stderr) and os.environ.get('PYVC_KEEP_PARSE_ERRORS'):
+			import shutil
+			shutil.copy(path, os.environ['PYVC_KEEP_PARSE_ERRORS'])
 		return (v if v in ('sat', 'unsat', 'unknown') else 'error'), time.time() - t0, (r.stdout + r.stderr)[:300]
 	except Exception as e:  # noqa: BLE001
 		return 'error', time.time() - t0, str(e)[:200]
